@@ -989,9 +989,18 @@ func swConcurrentRun(r *Rng, idx int, out *AreaOut) error {
 					} else {
 						i = r.Intn(len(d.Recs))
 					}
-					for c := 0; c < 3; c++ {
-						j := i - 1 + r.Intn(3) - r.Intn(2)
-						if r.Chance(15) {
+					for c := 0; c < 1+r.Intn(2); c++ {
+						// mostly the record just before the scan front: the sweeper's resume key
+						j := i - 1
+						switch x := r.Intn(100); {
+						case x < 60:
+						case x < 70:
+							j = i - 2
+						case x < 80:
+							j = i + 1
+						case x < 85:
+							j = i
+						default:
 							j = r.Intn(len(d.Recs))
 						}
 						if j < 0 || j >= len(d.Recs) {
@@ -1035,7 +1044,7 @@ func swConcurrentRun(r *Rng, idx int, out *AreaOut) error {
 				touched[o.D+"\x00"+string(o.K)] = true
 			}
 			ops = append(ops, batch...)
-			time.Sleep(4 * time.Millisecond)
+			time.Sleep(12 * time.Millisecond)
 		}
 	}()
 	sw := sweeper.New(fmt.Sprintf("verif-conc-%d", idx), conf, env, swLogger, native)
